@@ -105,7 +105,7 @@ CLAIMED = {
                 "start + r*stride with its own buffer slice; merge_requests in its read form leaves every get request's "
                 "bytes in that request's buffer after the read and the copies it records (overlapping reads), and its caller "
                 "carries the copies out after ncmpio_read_write. It does not decide equality of file contents with blocking "
-                "execution.",
+                "execution. A wait list that names an id which is not pending is refused and leaves no request marked (R8.extract, unknown ids).",
         "note": "assume_mpi_ok; queue fields identified by struct NC field identity; the sorted-insert exception for "
                 "nonlead_off is path-conditioned, not blanket.",
         "design_ref": "DESIGN.md section 3 / C02, rules R5, R6",
@@ -126,7 +126,7 @@ CLAIMED = {
                 "error codes come in the documented order (NC_EPERM, NC_EINDEFINE, NC_ENOTVAR, NC_ECHAR, "
                 "NC_EINVALCOORDS, NC_EEDGE, NC_ESTRIDE ...), and each of the ~650 put/get wrappers runs id check, "
                 "sanity check, start/count check and the driver's data call in that order. The full product automaton "
-                "over call histories, and precedence among errors produced inside the driver, are not decided. Writability is derived from the NC_WRITE bit alone in every layer: each test of the open mode in the open functions is evaluated on mode words and may depend on no other bit (R4.rdonly). Driver mode functions do not change a mode bit on an exit that certainly fails (R11.layers, failing exits).",
+                "over call histories, and precedence among errors produced inside the driver, are not decided. Writability is derived from the NC_WRITE bit alone in every layer: each test of the open mode in the open functions is evaluated on mode words and may depend on no other bit (R4.rdonly). Driver mode functions do not change a mode bit on an exit that certainly fails (R11.layers, failing exits). The multi-variable APIs are explored with the number of variables left open (zero included): a call in a forbidden mode is rejected also when it names no variable.",
         "note": "classic-format files; multi-variable APIs examined with nvars >= 1; MPI communication succeeds; "
                 "bit and error values are re-read from the macro table on every run.",
         "design_ref": "DESIGN.md section 3 / C14, rule R11",
@@ -169,7 +169,7 @@ CLAIMED = {
                 "today's tree and is listed as known finding F-C13-1); every MPI type constructor that can leave gaps between elements is "
                 "decoded as non-contiguous by ncmpii_dtype_decode (otherwise pack/unpack are skipped and the gaps of the "
                 "caller's buffer are read or overwritten). It does not decide in general that a read touches exactly "
-                "the selected bytes.",
+                "the selected bytes. Index fields that use -1 for none (the attached-buffer slot of a request) are compared with constants only in ways that tell -1 from slot 0 (R10.sentinel).",
         "note": "MPI calls and allocations succeed; read requests never own attached-buffer space (bget does not exist).",
         "design_ref": "DESIGN.md section 3 / C13",
     },
@@ -250,7 +250,7 @@ CLAIMED = {
                 "used for counts only); the per-rank shares tile each variable exactly (bounded: nprocs <= 5); the "
                 "_FillValue attribute guards (type, single element, late fill) are in place; ncmpio__enddef reaches the fill "
                 "step exactly when the file has at least one variable, whatever their kinds (the guard evaluated for 0..3 "
-                "fixed-size x 0..3 record variables). Values read back are not decided.",
+                "fixed-size x 0..3 record variables). Values read back are not decided. A dataset-level fill-mode change is stored for every variable: set-for-all loops over a header array cover [0, ndefined) (R5.setall). The fill step hands the write exactly the bytes its file view selects, one block per request whose fill buffer was prepared (R8.fillbatch, bounded); ncmpi_copy_att makes put_att's three _FillValue checks (R4.fillatt).",
         "note": "R8.partition is a bounded enumeration of an arithmetic slice, not an exhaustive argument.",
         "design_ref": "DESIGN.md section 3 / C16",
     },
